@@ -261,6 +261,9 @@ impl Check for C11Check {
         }
         stats.probe(&format!("mode:{}", scn.mode));
         stats.probe(&format!("event:{}", kind_name(&scn.event)));
+        if let Some(k) = crate::c09::evfault_kind(&scn.event, scn.seed) {
+            stats.fault(&format!("evfault:{k}"));
+        }
         let mut trials = scn.trials.clone();
         if scn.all_transpositions && banks.len() >= 2 && banks.len() <= 40 {
             let key = trials.first().map(|t| t.hash_key).unwrap_or(1);
